@@ -63,6 +63,7 @@ class Func(object):
         self.calls = set()
         self.writes = []
         self.clock = []
+        self.order = []
 
 
 def collect(module, tree):
@@ -182,6 +183,76 @@ def analyse(f, mod_names, class_attrs, persistent_attrs):
                 raise GenError('%s.%s: unsupported call shape at line %d' % (f.module, f.qual, x.lineno))
 
 
+def order_leaks(f):
+    """set-valued expressions whose ITERATION ORDER (hash order: differs from interpreter to interpreter for strings) can
+    reach a result.  A set may be: tested for membership, measured, sorted WITHOUT a key (a total order on the values),
+    or turned into a list that the very next statement sorts without a key; every other use is a leak site."""
+    node = f.node
+    parents = {}
+    for x in ast.walk(node):
+        for ch in ast.iter_child_nodes(x):
+            parents[ch] = x
+
+    def is_set_expr(x):
+        return isinstance(x, (ast.Set, ast.SetComp)) or (
+            isinstance(x, ast.Call) and isinstance(x.func, ast.Name) and x.func.id in ('set', 'frozenset'))
+
+    def plain_sorted(call):
+        return isinstance(call, ast.Call) and isinstance(call.func, ast.Name) and call.func.id == 'sorted' and not call.keywords
+
+    def next_stmt_sorts(stmt, name):
+        body_owner = parents.get(stmt)
+        for field in ('body', 'orelse', 'finalbody'):
+            body = getattr(body_owner, field, None)
+            if isinstance(body, list) and stmt in body:
+                k = body.index(stmt)
+                if k + 1 < len(body):
+                    nx = body[k + 1]
+                    return (isinstance(nx, ast.Expr) and isinstance(nx.value, ast.Call) and isinstance(nx.value.func, ast.Attribute)
+                            and nx.value.func.attr == 'sort' and isinstance(nx.value.func.value, ast.Name)
+                            and nx.value.func.value.id == name and not nx.value.args and not nx.value.keywords)
+        return False
+
+    def harmless_use(x):
+        """is the set-valued expression x (or a name holding a set) used in an order-insensitive way?"""
+        par = parents.get(x)
+        if isinstance(par, ast.Compare) and x in par.comparators and all(isinstance(o, (ast.In, ast.NotIn)) for o in par.ops):
+            return True
+        if isinstance(par, ast.Call) and x in par.args:
+            if isinstance(par.func, ast.Name) and par.func.id in ('len', 'bool', 'any', 'all', 'min', 'max', 'sum', 'set', 'frozenset'):
+                return True
+            if plain_sorted(par):
+                return True
+            if isinstance(par.func, ast.Name) and par.func.id in ('list', 'tuple'):
+                gp = parents.get(par)
+                if isinstance(gp, ast.Assign) and len(gp.targets) == 1 and isinstance(gp.targets[0], ast.Name):
+                    return next_stmt_sorts(gp, gp.targets[0].id)
+                return False
+        if isinstance(par, ast.Attribute) and par.value is x and par.attr in (
+                'add', 'update', 'discard', 'remove', 'clear', 'issubset', 'issuperset', 'isdisjoint', 'union', 'intersection',
+                'difference', 'copy', '__contains__'):
+            return True
+        if isinstance(par, (ast.BoolOp, ast.UnaryOp)) or (isinstance(par, (ast.If, ast.While, ast.IfExp)) and par.test is x):
+            return True
+        return False
+
+    for x in ast.walk(node):
+        if not is_set_expr(x):
+            continue
+        par = parents.get(x)
+        if isinstance(par, ast.Assign) and len(par.targets) == 1 and isinstance(par.targets[0], ast.Name) and par.value is x:
+            name = par.targets[0].id
+            for u in ast.walk(node):
+                if isinstance(u, ast.Name) and u.id == name and isinstance(u.ctx, ast.Load) and not harmless_use(u):
+                    f.order.append((u.lineno, 'iteration order of the set %s can reach a result' % name))
+            continue
+        if isinstance(par, ast.Assign):
+            f.order.append((x.lineno, 'a set stored where its later uses are not tracked'))
+            continue
+        if not harmless_use(x):
+            f.order.append((x.lineno, 'iteration order of a set can reach a result'))
+
+
 def main():
     modules = {}
     for root, dirs, files in os.walk(PKG):
@@ -219,6 +290,7 @@ def main():
     for m, (funcs, mod_names, class_attrs) in sorted(info.items()):
         for f in funcs:
             analyse(f, mod_names, class_attrs, persistent_attrs)
+            order_leaks(f)
             allf.append(f)
     index = {(f.module, f.qual): i for i, f in enumerate(allf)}
     by_name = {}
@@ -256,6 +328,10 @@ def main():
     cs = [(i, ln, what) for i, f in enumerate(allf) for (ln, what) in f.clock]
     out.append('(* wall-clock / random-number call sites *)\nDefinition clock_sites : list (N * N * string) :=\n  [%s].\n' %
                ';\n   '.join('(%d, %d, "%s"%%string)' % (i, ln, what) for (i, ln, what) in cs))
+    osites = [(i, ln, what) for i, f in enumerate(allf) for (ln, what) in sorted(set(f.order))]
+    out.append('\n(* sites where the iteration order of a set (hash order) can reach a result *)\n'
+               'Definition order_sites : list (N * N * string) :=\n  [%s].\n' %
+               ';\n   '.join('(%d, %d, "%s"%%string)' % (i, ln, what) for (i, ln, what) in osites))
     write_if_changed(GEN + '/Effects.v', ''.join(out))
 
 
